@@ -65,7 +65,8 @@ pub enum S {
 }
 
 #[derive(Clone, Debug, PartialEq)]
-pub enum CV { None, Bool(bool), Int(i64), Str(String), List(Vec<CV>), Map(Vec<(String, CV)>) }
+pub enum CV { None, Bool(bool), Int(i64), Str(String), /// a string marked safe (`Value::from_safe_string`): the same string for the core constructs
+    Safe(String), List(Vec<CV>), Map(Vec<(String, CV)>) }
 
 pub type Ctx = Vec<(String, CV)>;
 
@@ -96,6 +97,7 @@ fn cv_value(v: &CV) -> Value {
         CV::Bool(b) => Value::from(*b),
         CV::Int(i) => Value::from(*i),
         CV::Str(s) => Value::from(s.as_str()),
+        CV::Safe(s) => Value::from_safe_string(s.clone()),
         CV::List(xs) => Value::from(xs.iter().map(cv_value).collect::<Vec<_>>()),
         CV::Map(kvs) => Value::from_pairs(kvs.iter().map(|(k, v)| (k.clone(), cv_value(v)))),
     }
